@@ -9,8 +9,8 @@ import (
 
 // C07: safe for concurrent use, including concurrent first use of a type.
 
-var buildSites = []string{"reg.load", "reg.store", "reg.storeOrSwap", "struct.field", "struct.fieldDone", "struct.index", "struct.done", "map.build", "op.begin", "auto.atomic", "auto.lock", "auto.call"}
-var steadySites = []string{"intern.miss", "intern.locked", "intern.publish", "map.entry", "map.key", "map.value", "struct.read", "struct.append", "slice.elem", "slice.append", "time.read", "json.map", "json.array", "json.kv", "struct.size", "struct.descriptor", "map.size", "map.append", "slice.size", "slice.encode", "json.size", "json.encode", "other", "auto.atomic", "auto.lock", "auto.call"}
+var buildSites = []string{"reg.load", "reg.store", "reg.storeOrSwap", "struct.field", "struct.fieldDone", "struct.index", "struct.done", "map.build", "op.begin", "auto.atomic", "auto.lock", "auto.call", "auto.spin"}
+var steadySites = []string{"intern.miss", "intern.locked", "intern.publish", "map.entry", "map.key", "map.value", "struct.read", "struct.append", "slice.elem", "slice.append", "time.read", "json.map", "json.array", "json.kv", "struct.size", "struct.descriptor", "map.size", "map.append", "slice.size", "slice.encode", "json.size", "json.encode", "other", "auto.atomic", "auto.lock", "auto.call", "auto.spin"}
 
 func pickSites(r *engine.PRNG, always []string, optional []string, pct int) []string {
 	out := append([]string(nil), always...)
